@@ -43,9 +43,13 @@ pub fn c14_id_roundtrip() {
 
 /// A "unit" of an identifier in a query string: a raw char (ASCII other than '%', or a
 /// 2-byte char U+0080..U+07FF) or '%' followed by two ASCII bytes.
-fn push_unit(buf: &mut [u8; 72], n: &mut usize) -> Option<u8> {
-    let cls: u8 = kani::any();
+fn push_unit(buf: &mut [u8; 72], n: &mut usize, classes: u8) -> Option<u8> {
+    let mut cls: u8 = kani::any();
     kani::assume(cls < 3);
+    // classes == 2: only raw ASCII and %XY units (two-byte chars get their own harness)
+    if classes == 2 && cls == 1 {
+        cls = 0;
+    }
     if cls == 0 {
         let b: u8 = kani::any();
         kani::assume(b < 0x80 && b != b'%');
@@ -80,13 +84,13 @@ fn push_unit(buf: &mut [u8; 72], n: &mut usize) -> Option<u8> {
 
 /// urldecode_20_bytes(s) == Ok(v) <=> s consists of exactly 20 well-formed units, v[i] = value
 /// of unit i (reference decoder above). N units are generated.
-pub fn c14_urldecode_ref<const N: usize>() {
+pub fn c14_urldecode_ref<const N: usize>(classes: u8) {
     let mut buf = [0u8; 72];
     let mut n = 0usize;
     let mut vals = [None; N];
     let mut i = 0;
     while i < N {
-        vals[i] = push_unit(&mut buf, &mut n);
+        vals[i] = push_unit(&mut buf, &mut n, classes);
         i += 1;
     }
     let s = unsafe { std::str::from_utf8_unchecked(&buf[..n]) };
